@@ -31,9 +31,10 @@ SPEC = {
 
 
 def per_source(htx):
+    # category/subcategory are merchant-level attributes merged across sources by merchant name: not a per-source figure
     d = defaultdict(Counter)
     for t in htx:
-        d[t[0]][t[1:]] += 1
+        d[t[0]][(t[1],) + t[4:]] += 1
     return d
 
 
@@ -113,19 +114,31 @@ def judge(rec, rnd, tmp, k):
         rec.violation(key, f'{len(htx)} transactions in the report, {len(exp)} expected; missing {miss}; unexpected {extra}; rules={b["rules_kind"]} '
                       f'mode={b["rule_mode"]}', case)
         return
-    got_m = Counter((t[0], t[4], t[5], t[1] if t[2] != 'Unknown' else None) for t in htx)
-    want_m = Counter((e['source'], e['desc'], round(e['amount'], 6), e['triple'][0] if e['triple'] else None) for e in exp)
-    if got_m != want_m:
-        rec.violation('report-merchant-assignment-differs', f'missing {list((want_m - got_m).elements())[:3]}; unexpected {list((got_m - want_m).elements())[:3]}; '
-                      f'rules={b["rules_kind"]} mode={b["rule_mode"]}', case)
-        return
-    cats = defaultdict(set)
+    # merchant names: a known transaction must carry its rule's merchant; an Unknown one gets a name derived from its description,
+    # which may coincide with a rule merchant (the report merges them by name), so categories are judged per unambiguous name only
+    names_of = defaultdict(Counter)
+    for t in htx:
+        names_of[(t[0], t[4], t[5], t[6])][t[1]] += 1
+    want_names = defaultdict(Counter)
     for e in exp:
         if e['triple']:
-            cats[e['triple'][0]].add(e['triple'][1:])
+            want_names[(e['source'], e['desc'], round(e['amount'], 6), e['month'])][e['triple'][0]] += 1
+    for key, wn in want_names.items():
+        if wn - names_of[key]:
+            rec.violation('report-merchant-assignment-differs', f'transaction {key}: expected merchant(s) {dict(wn)}, report has {dict(names_of[key])}; '
+                          f'rules={b["rules_kind"]} mode={b["rule_mode"]}', case)
+            return
+    obs_name = {}
     for t in htx:
-        if t[1] in cats and len(cats[t[1]]) == 1 and (t[2], t[3]) != next(iter(cats[t[1]])) and t[2] != 'Unknown':
-            rec.violation('report-category-differs', f'merchant {t[1]!r}: report {t[2:4]}, expected {cats[t[1]]}', case)
+        obs_name[(t[0], t[4], t[5], t[6])] = t[1]
+    by_name = defaultdict(list)
+    for e in exp:
+        by_name[e['triple'][0] if e['triple'] else obs_name[(e['source'], e['desc'], round(e['amount'], 6), e['month'])]].append(e)
+    for t in htx:
+        es = by_name.get(t[1], [])
+        kinds = {(e['triple'][1], e['triple'][2]) if e['triple'] else ('Unknown', 'Unknown') for e in es}
+        if len(kinds) == 1 and (t[2], t[3]) != next(iter(kinds)):
+            rec.violation('report-category-differs', f'merchant {t[1]!r}: report {t[2:4]}, expected {kinds}', case)
             return
     # ---- JSON merchants totals
     name_of = {}
